@@ -290,6 +290,16 @@ def _oracle_path(path, case) -> list:
         table = table[table["model"] == table["model"].iloc[0]]
     elif "pdbx_PDB_model_num" in table.columns:
         table = table[table["pdbx_PDB_model_num"] == table["pdbx_PDB_model_num"].iloc[0]]
+    if case.get("variant") == "row-selection":
+        # a row selection of the parsed table handed on as it is (every atom of every fifth residue of each chain and
+        # all hydrogens dropped, index labels no longer 0..n-1) - what filtering a table and building a Structure gives
+        fmt = table.attrs.get("format")
+        ccol, ncol = ("chainID", "resSeq") if fmt == "PDB" else ("auth_asym_id", "auth_seq_id")
+        ecol = "element" if fmt == "PDB" else "type_symbol"
+        keep = ~((table[ncol].astype(int) % 5 == 0) | (table[ecol].astype(str) == "H"))
+        attrs = dict(table.attrs)
+        table = table[keep]
+        table.attrs.update(attrs)
     st = Structure(table)
     ta = st.torsion_angles
     n_tab = 0
@@ -392,12 +402,14 @@ def plan(tier, seed):
         specs += [{"kind": "built", "examples": 1200, "seed": seed * 1000 + k} for k in range(14)]
         specs += [{"kind": "lattice", "examples": 1500, "seed": seed * 1000 + 700}]
         specs += [{"kind": "corpus", "files": [f]} for f in QUICK_FILES]
-        specs += [{"kind": "corpus", "files": ["1ATO.pdb"], "variant": "icode-runs"}]
+        specs += [{"kind": "corpus", "files": ["1ATO.pdb"], "variant": "icode-runs"}, {"kind": "corpus", "files": ["1ATO.pdb"], "variant": "row-selection"},
+                  {"kind": "corpus", "files": ["184D.cif"], "variant": "row-selection"}]
     else:
         specs += [{"kind": "built", "examples": 60000, "seed": seed * 1000 + k} for k in range(16)]
         specs += [{"kind": "lattice", "examples": 40000, "seed": seed * 1000 + 700 + k} for k in range(4)]
         specs += [{"kind": "corpus", "files": [f]} for f in corpus_files()]
         specs += [{"kind": "corpus", "files": [f], "variant": "icode-runs"} for f in corpus_files() if f.endswith(".pdb")]
+        specs += [{"kind": "corpus", "files": [f], "variant": "row-selection"} for f in corpus_files()]
     return specs
 
 
@@ -457,7 +469,7 @@ def run_shard(spec) -> ShardResult:
             check_case(PROP_ID, oracle_file, case, res, to_json=lambda c: {k: v for k, v in c.items() if not k.startswith("_")})
             n_chi, n_tab = case.get("_counts", (0, 0))
             res.note_case({"file": fn, "variant": spec.get("variant"), "chi_values": n_chi, "table_values": n_tab}, n_chi > 0,
-                          ["corpus-file"] + (["renumbered-onto-insertion-code-runs"] if spec.get("variant") else []))
+                          ["corpus-file"] + ({"icode-runs": ["renumbered-onto-insertion-code-runs"], "row-selection": ["table-is-a-row-selection"]}.get(spec.get("variant"), [])))
             res.extra["corpus_chi_values"] = res.extra.get("corpus_chi_values", 0) + n_chi
             res.extra["corpus_table_values"] = res.extra.get("corpus_table_values", 0) + n_tab
         res.exhaustive = False
